@@ -30,16 +30,19 @@ CHECKS = {
  'C05': _b('Representation invariant Inv and accessor agreement evaluated after every operation of the alphabet on every '
            'small state, exhaustive histories to depth 2 (thorough 3, random to 8). Deductive part: Tier P - the row-compaction '
            'kernel _remove_rows_csr (see C08), _axis_to_num, _index, ids, index, exists, length, is_empty (accessors answer from the '
-           'id arrays / lookup tables of the right axis and change nothing); Tier A (view-level scipy model) - _index_ids, sum, nnz, '
-           'get_table_density, filter. The errcheck machinery the invariant rests on is proved under C20; constructors and the '
+           'id arrays / lookup tables of the right axis and change nothing), metadata (entry at the position the lookup of the '
+           'requested axis gives); Tier A (view-level scipy model) - _index_ids, sum, nnz, get_table_density, filter, _get_row, '
+           '_get_col, __getitem__ (element form) and get_value_by_ids (the cell at the positions the two lookups give). The errcheck machinery the invariant rests on is proved under C20; constructors and the '
            'other operations are bounded.', technique=TECH),
  'C06': _b('Contracts of sort / sort_order / align_to / transpose / copy / update_ids (permute or relabel only; inverse '
            'laws) over all permutations of axes up to 4, injective / partial renamings, all layouts. Deductive part (Tier A, '
            'view-level scipy model): Table.sort_order (the ids of the axis become exactly the requested order, every cell and '
            'every metadata entry travels with its id, the other axis and the receiver are untouched, unknown ids refused), '
            'Table.sort (sort_f sees the ids of the axis once; what it returns is handed to sort_order on the same axis), '
-           'Table.transpose (cells mirrored, ids and metadata of the axes swapped, receiver untouched), Table.copy. '
-           'align_to / update_ids are bounded.', technique=TECH),
+           'Table.transpose (cells mirrored, ids and metadata of the axes swapped, receiver untouched), Table.copy, '
+           'Table.update_ids (every id becomes what the map says or stays, never truncated by the fixed-width array; other axis, '
+           'metadata and cells untouched; lookups rebuilt; in-place never leaves duplicates; a refused update changes nothing). '
+           'align_to is bounded.', technique=TECH),
  'C07': _b('Frame and freshness contracts of every in-place-flag operation and every new-table operation: deep snapshots '
            'of receiver and arguments, show-through test by in-place operations on the result. Deductive part: the frame '
            '(modifies) clauses - checked as frame obligations - of the _filter / _transform kernels (Tier P) and of Table.copy, '
@@ -51,11 +54,12 @@ CHECKS = {
        'rows, entry by entry, in order), _make_filter_array_general (predicate called once per id, in order, with the true '
        'dense vector, id and metadata; result = truth xor invert) - loop invariants over ghost rank / kept-entry prefix '
        'functions. Tier A: Table.filter (id collection or predicate, invert, axis mapping, layout handed to the kernel, ids / '
-       'metadata kept in step, inplace) and Table.head (first n x m in order). Bounded: the contract of Table.filter / head / '
+       'metadata kept in step, inplace), Table.head (first n x m in order) and Table.remove_empty (the ids handed to filter are '
+       'exactly those of the vectors with at least one non-zero cell, on the right axes, on the copy or the receiver). Bounded: the contract of Table.filter / head / '
        'remove_empty on every matrix over {0,1,2} up to 2x2 (thorough 3x3) x every layout x every subset x invert x axis x '
        'inplace x ID forms.',
   note='kernel proofs: C integers treated as mathematical, numpy slices modelled as copies, callbacks pure; the module-level '
-       '_filter glue and remove_empty are bounded, not proved; scipy conversions assumed (view-level model)'),
+       '_filter glue is bounded, not proved; scipy conversions assumed (view-level model)'),
  'C09': _b('Contract of merge (pointwise sum over union / intersection, metadata policy, fast path = general path) over '
            'pairs and k-tuples with disjoint / nested / partial / identical / permuted ID sets. Bounded only.'),
  'C10': _b('Contract of Table.concat / biom.concat (blocks unchanged, zero padding, disjointness refused) for k = 1..3 '
